@@ -21,6 +21,38 @@ func derefConstruct(d Deref) string {
 	return s
 }
 
+const queryModeMark = " [query-mode only]"
+
+// queryModeOnly: the instruction runs only when the parser's requested LSP row equals the
+// current row, i.e. only under --suggest/--hover/--define --row=N.
+func queryModeOnly(ins ssa.Instruction) bool {
+	if ins == nil || ins.Block() == nil {
+		return false
+	}
+	isRowField := func(v ssa.Value) bool {
+		u, ok := v.(*ssa.UnOp)
+		if !ok {
+			return false
+		}
+		fa, ok := u.X.(*ssa.FieldAddr)
+		return ok && fieldNameOf(fa) == "LspTargetRow"
+	}
+	for cur := ins.Block(); cur != nil; cur = cur.Idom() {
+		d := cur.Idom()
+		if d == nil {
+			break
+		}
+		iff, ok := d.Instrs[len(d.Instrs)-1].(*ssa.If)
+		if !ok || len(cur.Preds) != 1 || d.Succs[0] != cur {
+			continue
+		}
+		if bo, ok := iff.Cond.(*ssa.BinOp); ok && bo.Op.String() == "==" && (isRowField(bo.X) || isRowField(bo.Y)) {
+			return true
+		}
+	}
+	return false
+}
+
 // tokenReadSite: the call returns a token (first result *base.T) and is a reader
 // primitive or a parser helper that reads.
 func (a *AE) tokenReadSite(c *ssa.Call) bool {
@@ -80,7 +112,7 @@ func engineNT(w *World, tier string) *EngineResult {
 					seen[k] = true
 					src := fr.sites[d.Org-1]
 					r.violated("NT", fnKey(fn), derefConstruct(d),
-						fmt.Sprintf("at end of input the token read at %s (%s) is nil and is dereferenced at %s (statement at %s)", w.pos(instrPos(src)), src.Call.StaticCallee().Name(), w.pos(d.Pos), w.pos(d.Top)),
+						fmt.Sprintf("at end of input the token read at %s (%s) is nil and is dereferenced at %s (statement at %s)%s", w.pos(instrPos(src)), src.Call.StaticCallee().Name(), w.pos(d.Pos), w.pos(d.Top), map[bool]string{true: queryModeMark, false: ""}[queryModeOnly(d.Ins)]),
 						w.pos(d.Top))
 				}
 				if n == 0 {
@@ -116,14 +148,14 @@ func engineNT(w *World, tier string) *EngineResult {
 					continue
 				}
 				cal := c.Call.StaticCallee()
-				if cal == nil || !may[cal] {
+				if cal == nil || len(may[cal]) == 0 {
 					continue
 				}
 				lsites++
 				ord[cal.Name()]++
 				construct := fmt.Sprintf("lookup %s#%d", cal.Name(), ord[cal.Name()])
 				fr := newFrame(fn, al.budget*4)
-				al.forced = map[*ssa.Call]Val{c: vNil(0)}
+				al.forced = map[*ssa.Call]Val{c: missValue(cal, may[cal], 0)}
 				al.memo = map[string]*summary{} // forced results are per site
 				al.explore(fr, b, i, aenv{}, nil)
 				al.forced = map[*ssa.Call]Val{}
@@ -142,6 +174,10 @@ func engineNT(w *World, tier string) *EngineResult {
 					continue
 				}
 				d := ds[0]
+				mark := ""
+				if queryModeOnly(d.Ins) {
+					mark = queryModeMark
+				}
 				key := "NT-lookup|" + fnKey(fn) + "|" + construct
 				if why, ok := ntReviewed[key]; ok {
 					r.Reviewed[key] = why
@@ -149,7 +185,7 @@ func engineNT(w *World, tier string) *EngineResult {
 					continue
 				}
 				r.violated("NT-lookup", fnKey(fn), construct,
-					fmt.Sprintf("when %s finds nothing its nil result is dereferenced at %s: %s", cal.Name(), w.pos(d.Pos), derefConstruct(d)), w.pos(instrPos(c)))
+					fmt.Sprintf("when %s finds nothing its nil result is dereferenced at %s: %s%s", cal.Name(), w.pos(d.Pos), derefConstruct(d), mark), w.pos(instrPos(c)))
 			}
 		}
 	}
@@ -163,16 +199,18 @@ func engineNT(w *World, tier string) *EngineResult {
 
 // ntReviewed: lookups whose miss is excluded by an invariant that was read and confirmed.
 var ntReviewed = map[string]string{
+	"NT-lookup|eval/method_evaluator.evaluateUnionInstanceMethod|lookup checkAndPropagateArgsForUnionWithReturnT#1": "the result is nil only when the list of method entries is empty; the only caller (unionInstanceStrategy.evaluate) returns before the call in that case, and with a non-empty list the first iteration assigns a deep copy of a non-nil entry",
 	"NT-lookup|eval.(*Evaluator).referenceEvaluation|lookup GetConstValueT#1": "a nil constant reaches generalReferenceEvaluation only if the configuration declares a class literally named \"Unknown\" with a [] method (TypeToString(nil) = \"Unknown\"); C01 quantifies over source files under a given configuration and the shipped configurations have no such class",
 	"NT-lookup|eval/method_evaluator.checkAndPropagateArgs|lookup getDefinedArgT#1": "with a nil definedArgT propagationForCalledTo returns true (continue) unless argT has identifier type; then checkArgType returns at its case argT.IsUnknownType() (same test: tType == UNKNOWN) before definedArgT is dereferenced — the two predicates are correlated, which the evaluator cannot see",
 }
 
 // mayReturnNil derives the table lookups of module ti that can return nil: functions
-// with a single *base.T result that (through static calls) index a package-level map and
-// for which abstract evaluation in the "every lookup misses" environment has a path that
-// returns nil. Fixed point over callees.
-func mayReturnNil(w *World) map[*ssa.Function]bool {
-	may := map[*ssa.Function]bool{}
+// with a *base.T result (possibly inside a tuple) that (through static calls) index a
+// package-level map and for which abstract evaluation in the "every lookup misses"
+// environment has a path that returns nil in that position with a nil error. Fixed point
+// over callees. The value is the set of nil-able result positions.
+func mayReturnNil(w *World) map[*ssa.Function]map[int]bool {
+	may := map[*ssa.Function]map[int]bool{}
 	isT := func(t types.Type) bool { return isPtrToNamed(t, modulePath+"/base", "T") }
 	idx := map[*ssa.Function]bool{}
 	var indexes func(fn *ssa.Function, d int) bool
@@ -207,7 +245,13 @@ func mayReturnNil(w *World) map[*ssa.Function]bool {
 	var cands []*ssa.Function
 	for _, fn := range w.Funcs {
 		res := fn.Signature.Results()
-		if res.Len() == 1 && isT(res.At(0).Type()) && fn.Parent() == nil && indexes(fn, 0) {
+		hasT := false
+		for i := 0; i < res.Len(); i++ {
+			if isT(res.At(i).Type()) {
+				hasT = true
+			}
+		}
+		if hasT && fn.Parent() == nil && indexes(fn, 0) {
 			cands = append(cands, fn)
 		}
 	}
@@ -217,13 +261,18 @@ func mayReturnNil(w *World) map[*ssa.Function]bool {
 		a.missAll = true
 		a.missFns = may
 		for _, fn := range cands {
-			if may[fn] {
-				continue
-			}
 			s := a.evalFunc(fn, make([]Val, len(fn.Params)))
-			if s.nilRet {
-				may[fn] = true
-				changed = true
+			for p := range s.nilPos {
+				if !isT(fn.Signature.Results().At(p).Type()) {
+					continue
+				}
+				if may[fn] == nil {
+					may[fn] = map[int]bool{}
+				}
+				if !may[fn][p] {
+					may[fn][p] = true
+					changed = true
+				}
 			}
 		}
 	}
